@@ -306,14 +306,22 @@ def twin_analyse(text, impl_out, tol=1e-9):
                     "setinertia", "setparams", "setframe", "UK", "UKC", "join", "separate", "joinsep"):
             continue
         calls.setdefault(cid, []).append((k, name))
+    allout = {}
+    for (k, name) in order:
+        cid = k.rsplit(".", 1)[0]
+        if name in ("add", "append", "cs_contact", "cs_loop"):
+            continue
+        allout.setdefault(cid, []).append((k, name))
     fails, n = [], 0
     for line in text.splitlines():
-        if not (line.startswith("#twin ") or line.startswith("#twinlast ")):
+        if not (line.startswith("#twin ") or line.startswith("#twinlast ") or line.startswith("#twinall ")):
             continue
         p = line.split()
         a, b = p[1], p[2]
         perm = [int(x) for x in p[4:]] if len(p) > 3 and p[3] == "perm" else []
         ca, cb = calls.get(a, []), calls.get(b, [])
+        if p[0] == "#twinall":
+            ca, cb = allout.get(a, []), allout.get(b, [])
         if p[0] == "#twinlast":
             k = int(p[3])
             ca, cb = ca[-k:], cb[-k:]
@@ -478,7 +486,7 @@ def main(argv):
         mt = re.match(r"twin (\S+) vs (\S+):", item.get("why", ""))
         if mt:
             ctext = extract_case(extra_text or text, mt.group(1)) + extract_case(extra_text or text, mt.group(2)) + \
-                "\n".join(l for l in (extra_text or text).splitlines() if l.startswith(("#twin %s %s" % (mt.group(1), mt.group(2)), "#twinlast %s %s" % (mt.group(1), mt.group(2))))) + "\n"
+                "\n".join(l for l in (extra_text or text).splitlines() if l.startswith(("#twin %s %s" % (mt.group(1), mt.group(2)), "#twinlast %s %s" % (mt.group(1), mt.group(2)), "#twinall %s %s" % (mt.group(1), mt.group(2))))) + "\n"
         payload = {"property": prop, "kind": kind, "routine": item["name"], "case_id": cid,
                    "why": item["why"], "case": ctext, "detail": item,
                    "seed": seed, "replay_cmd": "./check %s --replay <this file>" % prop}
